@@ -172,14 +172,22 @@ def check_data_received(c, f):
         c.check(ok, f, fs[0][1] if fs else feeds[0].ast, 'a match (index is not None, 0 included) resolves the future with that index', tag='found')
     # exceptions
     hs = [h for h in iter_nodes(f.node) if isinstance(h, ast.ExceptHandler)]
-    c.need(len(hs) == 1, 'data_received: expected one except handler')
+    c.need(len(hs) >= 1, 'data_received: expected an except handler')
+    # (one handler around matching and delivery, or one around each: every one of them records and delivers)
+    ok, names = True, []
+    for h in hs:
+        names = [callee_last(k) for st in h.body for k in calls_in(st)]
+        ok = ok and names == ['errored', 'error'] and h.name is not None and any(
+            callee_last(k) == 'error' and k.args and is_name(k.args[0], h.name) for st in h.body for k in calls_in(st))
     h = hs[0]
-    names = [callee_last(k) for st in h.body for k in calls_in(st)]
-    ok = names == ['errored', 'error'] and h.name is not None and any(
-        callee_last(k) == 'error' and k.args and is_name(k.args[0], h.name) for st in h.body for k in calls_in(st))
     c.check(ok, f, h, 'an exception while matching is recorded with errored() and delivered to the awaiting caller with error(exc)',
             witness=str(names), kind='ast', tag='errors')
-    c.check(feeds and any(isinstance(p, ast.Try) and h in p.handlers for p in parent_chain(feeds[0].ast)), f, h, 'new_data() runs inside that try', kind='ast', tag='in-try')
+
+    def covered(node):
+        return any(isinstance(p, ast.Try) and p.handlers and any(node is x for st_ in p.body for x in ast.walk(st_)) for p in parent_chain(node))
+    c.check(bool(feeds) and covered(feeds[0].ast), f, h, 'new_data() runs inside that try', kind='ast', tag='in-try')
+    fs_ = [k for k in calls_in(f.node) if callee_last(k) == 'found']
+    c.check(all(covered(k) for k in fs_), f, fs_[0] if fs_ else h, 'the delivery of a match runs under such a handler too (a failing pause_reading() is recorded, not lost)', kind='ast', tag='found-in-try')
 
 
 def check_eof(c, repo):
